@@ -106,7 +106,8 @@ CHECKS = {
         'assignments each public() performs, as_dict/repr tables and encrypted columns; the model runs public() as a program over those tables. Theorems for '
         'ALL method histories before and after taking the public view: public_view_clean, public_view_no_secret, classification_sound, '
         'default_exports_clean, walletkey_* variants, private_columns_encrypted; Glue lemmas make a removed stripping line or a new caching attribute '
-        'break the proof. Tie: random method histories on real keys and wallet keys with a byte-level scan (pickle, deepcopy, __dict__ walk, '
+        'break the proof. Wallet level: configurations (master private, private or public account-level key, single keys, cosigner wallets) and operation histories '
+        'with public_master() / wif() interpreted over the regenerated return-path tables: wallet_public_view_clean, wallet_returns_clean, wallet_default_exports_clean, wallet_methods_glue (path tables, bodies and default argument lists of 25 view/export entry points equal the frozen copies). Tie: random method histories on real keys, wallet keys and WALLETS of every configuration (every public-view entry point, recursing into cosigner wallets) with a byte-level scan (pickle, deepcopy, __dict__ walk, '
         'as_dict/as_json/repr/info, raw sqlite file with field encryption) for every encoding of the secret.',
    design_ref='DESIGN.md section 6 C16, section 9',
    note='Partial: Python object graph, pickle, sqlite file layout are runtime, covered by the scan (testing). One-way steps (EC multiplication, BIP38 '
@@ -129,7 +130,12 @@ CHECKS = {
         'decimal<->binary64 conversions as exact integer algorithms proved correct with Flocq. Theorems: btc_string_exact and btc_amount_exact for EVERY n in '
         '[0, 21e14] and every network, sat_string_exact, format_parse_roundtrip (default denominator), py_float_correctly_rounded, py_round_exact, '
         'outputs_are_integers; vm_compute refutation witnesses for each denominator that loses a unit. Constants are parsed from the regenerated tables. '
-        'Tie: bit-exact (float.hex) correspondence on ~270k amounts per run including rounding-boundary and top-of-range streams.',
+        'Tie: bit-exact (float.hex) correspondence on ~270k amounts per run including rounding-boundary and top-of-range streams.'
+        ' Conversion SESSIONS in one process and amount-changing transaction operations: conversion_session_stateless, btc/sat_string_exact_in_session, '
+        'value_observations_transparent, add_output_value_exact, session_bump_is_lib_bumpfee (C07 model reused), session_amounts_nonnegative (after every operation of any '
+        'session of bumpfee / update_totals / sign_and_update / estimate_size / calculate_fee every output is an integer in 0..2^64-1, fee >= 0, inputs = outputs + fee), '
+        'bumpfee_fee_bounds, bumpfee_exact_from_large_change, add_output_then_sign. Tie: seq / vobj / txs / wtx session requests, each session in a fresh fork; the '
+        'oracle re-parses raw() after every operation.',
    design_ref='DESIGN.md section 6 C17, section 9',
    note='Axioms (standard library only, listed in ALLOWED_AXIOMS and evidence): ClassicalDedekindReals.sig_forall_dec, sig_not_dec, '
         'FunctionalExtensionality.functional_extensionality_dep, Classical_Prop.classic (through Reals/Flocq) and the FloatAxioms primitive-float '
@@ -141,7 +147,8 @@ CHECKS = {
         'gettransaction, getrawtransaction, estimatefee, isspent, blockcount with the cache as a map with explicit clock. Theorems for every provider list, '
         'outcome assignment and setting: result_is_a_provider_answer, fails_only_when_nobody_answers (exact characterisation of Value/False/ServiceError), '
         'skips_are_skipped, order_respects_priority, wrappers_do_not_fabricate (guarded) and unguarded *_origins theorems listing every source of a '
-        'returned value, cache_returns_what_was_stored. Tie: exhaustive outcome assignments for k<=3 fake providers x settings x priority orders against '
+        'returned value, cache_returns_what_was_stored. Cache read paths modelled as they are (insertion order, ORDER BY (block_height, index) with NULL first, after_txid, limit, last_block, spent flags, n_txs/n_utxos bookkeeping, block pages): cache_returns_what_was_stored (for every stored set with arbitrary heights, several per block, every after_txid and limit the cached answer is the slice a provider would return), cached_transactions_are_the_stored_slice, cached_utxos_are_the_stored_outputs, gettransactions_served_from_cache, gettransactions_origins, '
+        'gettransactions_never_partial, getutxos_never_partial, cached_block_page_is_the_filed_page, getblock_origins, source_facts_cache_reads (22 comparison operators and ORDER BY lists re-read from services.py on every run). Tie: exhaustive outcome assignments for k<=3 fake providers x settings x priority orders against '
         'the real Service with a sqlite cache; control-flow facts re-read from the source (GenService).',
    design_ref='DESIGN.md section 6 C20, section 9',
    note='Partial: clock, HTTP and sqlite are runtime (a timeout is a Raise). gettransactions/getblock/address index not modelled. Six known findings (False or '
@@ -254,11 +261,12 @@ CHECKS = {
         'tables regenerated from networks.json. Theorems for every secret, chain code, depth, child number, fingerprint, table row (network x private/public x '
         'witness type x multisig): wif_roundtrip, xkey_roundtrip, xkey_roundtrip_from_wif, xkey_export_is_row_text, raw_forms_roundtrip, raw_public_*_roundtrip, '
         'network_resolution_sound/refusal, xkey_network_candidates, never_cross_classified_xkey, never_cross_classified_bip38, prefix_determines_private, '
-        'wif_version_never_starts_hd_prefix, hd_prefix_shape (table facts re-proved by vm_compute on every regeneration). Tie: exhaustive table stream (all rows, '
+        'wif_version_never_starts_hd_prefix, hd_prefix_shape (table facts re-proved by vm_compute on every regeneration). prefixes_wif_rows_are_frozen_spec / all_rows_are_frozen_rows (regenerated table = frozen specification table), slip132_prefix_determines_metadata, xkey_roundtrip_exact_metadata, and export SESSIONS on one object: session_is_map_of_stateless_exports, session_answer_depends_on_fields_only, exports_leave_fields_unchanged, wif_after_explicit_prefix_is_plain_wif, wif_after_network_change_is_new_network, '
+        'wif_after_address_follows_compressed_attribute, session_wif_roundtrip. Tie: sessions of every export method with explicit arguments, network_change, public(), encrypt on one Key/HDKey object (each answer recomputed from protocol definitions and the frozen table); exhaustive table stream (all rows, '
         'all 256 version bytes), export/import round trips with leading-zero secrets, depths 0..255, boundary child numbers, hints on/off, mutated strings.',
    design_ref='DESIGN.md section 6 C12, section 9',
    note='Closed under the global context. Point (de)compression is an abstract pair of maps here (C04 proves it); SHA-256 is the executable Gallina one. One known '
-        'finding (HDKey compressed=False is not representable in BIP32 serialisation); two defects repaired by fix: commits.',
+        'finding (HDKey compressed=False is not representable in BIP32 serialisation); three defects repaired by fix: commits (incl. the WIF cache ignoring the compressed flag, found by the session stream).',
    technique='Coq proof (codec round trips over regenerated prefix tables, finite table facts by vm_compute) + exhaustive-table differential correspondence'),
  'C13': dict(
    text='Gallina model of Signature.create / __init__ / parse_bytes / as_der_encoded / verify, the public_key and txid setters, sign, verify and the fastecdsa DER coder '
